@@ -5,7 +5,7 @@ from pcv import core, capio
 
 P = "PcVerif.Props.C08."
 THEOREMS = [P + t for t in ["coarsen_idempotent", "grids_nested", "chain_coarsest", "second_pass_identity", "srt_hop", "srt_hop_instant", "vtt_hop", "mdvd_hop", "dfxp_hop_instant",
-                           "chain_loss_bounded", "chain_monotone", "chain_same_formats", "chain_append", "chain_passes"]]
+                           "chain_loss_bounded", "chain_monotone", "chain_same_formats", "chain_append", "chain_passes", "chain_keeps_timeline_sorted", "chain_keeps_apart"]]
 FORMATS = ["srt", "webvtt", "dfxp", "sami", "microdvd"]
 WORDS = ["hello", "world", "Q&A", "a<b", "1>0", "it's", '"quoted"', "é", "中文", "100%", "fox", "two", "I", "x", "&amp;", "--", "{1}", "&lt;", "&gt;", "&nbsp;", "&#38;", "AT&T;"]
 
